@@ -45,7 +45,7 @@ func trFastlyHeaders(req *ihttp.Request) { req.Header.Set("Fastly-FF", "stub") }
 
 func trFindFiles(root, filter string) ([]string, error) { return []string{"main.test.vcl"}, nil }
 
-const trMainVCL = "backend b {\n  .host = \"example.com\";\n}\nsub vcl_recv {\n  #FASTLY RECV\n  set req.http.X = \"v\";\n  return(lookup);\n}\nsub vcl_deliver {\n  #FASTLY DELIVER\n  set resp.http.Y = \"w\";\n}\n"
+const trMainVCL = "backend b {\n  .host = \"example.com\";\n}\nsub vcl_recv {\n  #FASTLY RECV\n  set req.http.X = \"v\";\n  set req.http.Empty = \"\";\n  if (req.http.Nope) {\n    set req.http.R = \"if\";\n  } else if (req.http.Empty) {\n    set req.http.R = \"elseif\";\n  } else if (req.http.X) {\n    set req.http.R = \"third\";\n  } else {\n    set req.http.R = \"else\";\n  }\n  return(lookup);\n}\nsub vcl_deliver {\n  #FASTLY DELIVER\n  set resp.http.Y = \"w\";\n}\n"
 
 var TrKinds = []string{"pass", "fail", "runtime-error", "skip", "two-scopes-pass", "two-scopes-fail", "two-asserts-pass", "pass-then-fail"}
 
@@ -144,7 +144,7 @@ func VerifTestVerdicts() {
 
 // ---- C10-b/c: coverage measurement and test order do not change verdicts
 
-var TrIsoKinds = []string{"pass", "fail", "mutate", "observe", "call-main", "branchy"}
+var TrIsoKinds = []string{"pass", "fail", "mutate", "observe", "call-main", "branchy", "mutate-url", "observe-url"}
 
 func trIsoTest(k int, kind string) string {
 	name := "test_" + string(rune('a'+k))
@@ -158,8 +158,12 @@ func trIsoTest(k int, kind string) string {
 		body = "  set req.http.Shared = \"1\";\n  assert.equal(req.http.Shared, \"1\");\n"
 	case "observe":
 		body = "  assert.is_notset(req.http.Shared);\n"
-	case "call-main": // runs the main VCL's vcl_recv: the code that coverage instruments
-		body = "  testing.call_subroutine(\"vcl_recv\");\n  assert.equal(req.http.X, \"v\");\n  assert.state(lookup);\n"
+	case "mutate-url": // the request line is request state too
+		body = "  set req.url = \"/changed?x=1\";\n  assert.equal(req.url, \"/changed?x=1\");\n"
+	case "observe-url":
+		body = "  assert.not_equal(req.url, \"/changed?x=1\");\n"
+	case "call-main": // runs the main VCL's vcl_recv: the code that coverage instruments (a set-but-empty header is true in an else-if condition)
+		body = "  testing.call_subroutine(\"vcl_recv\");\n  assert.equal(req.http.X, \"v\");\n  assert.equal(req.http.R, \"elseif\");\n  assert.state(lookup);\n"
 	default: // branchy: if / else and switch in the test itself
 		body = "  declare local var.s STRING;\n  set var.s = \"a\";\n  if (var.s == \"a\") {\n    set var.s = \"b\";\n  } else {\n    set var.s = \"c\";\n  }\n  switch (var.s) {\n  case \"b\":\n    set var.s = \"d\";\n    break;\n  default:\n    set var.s = \"e\";\n    break;\n  }\n  assert.equal(var.s, \"d\");\n"
 	}
